@@ -48,6 +48,8 @@ def rule_edgepred(ctx):
             grouped_sorted = len(its) == 1 and its[0].op == "call" and call_name(its[0]) == "itertools.groupby" and its[0].a[1] and its[0].a[1][0].op == "call" and call_name(its[0].a[1][0]) == "builtins.sorted"
             yield ob("C05.EDGEPRED", f, "%s:graph-writes" % q, grouped_sorted, "graph is built by a dict comprehension: unless the pairs are grouped after sorting by estimate index, a repeated estimate index keeps only its last candidate(s) and feasible edges are lost", node=bm[0].node)
             continue
+        if G.op == "call" and call_name(G) == "builtins.dict" and len(G.a[1]) == 1 and not G.a[2]:
+            G = G.a[1][0]  # dict(G): a plain copy of the mapping
         need(G.op == "loop", "C05.EDGEPRED", "%s: graph is not built by one loop" % q)
         lid, gname, init, body = G.a
         it = s.loops[lid][1]
@@ -59,7 +61,10 @@ def rule_edgepred(ctx):
             k0, v0 = init.a[1].a
             el = tm.mk("iter", init.a[2][0], init.a[4])
             init_keys = init.a[2][0] is it and v0.op == "list" and not v0.a and k0 is tm.proj(el, 1)
-        yield ob("C05.EDGEPRED", f, "%s:graph-init" % q, init_empty or init_keys, "graph starts as an empty dict" if init_empty else "graph starts with one empty adjacency list per estimate index of the hit pairs")
+        # collections.defaultdict(list): G[e] creates the empty adjacency list of e iff e is not yet a key
+        init_dd = init.op == "call" and call_name(init) == "collections.defaultdict" and len(init.a[1]) == 1 and not init.a[2] and init.a[1][0].op == "builtin" and init.a[1][0].a[0] == "list"
+        yield ob("C05.EDGEPRED", f, "%s:graph-init" % q, init_empty or init_keys or init_dd, "graph starts as an empty dict" if init_empty else "graph starts empty with list-creating lookups (defaultdict(list))" if init_dd else "graph starts with one empty adjacency list per estimate index of the hit pairs")
+        init_keys = init_keys or init_dd
         # every write to the graph variable
         writes = [m for m in s.by_kind("mutate") if m.root == gname]
         good_w = True
